@@ -587,13 +587,22 @@ PROPS = {
                   'Meddly.Reach.reachable_split',
                   'Meddly.Reach.saturation_schedule_correct',
                   'Meddly.Reach.satur_eq_lfp_partial',
+                  'Meddly.Reach.lfp_idem',
+                  'Meddly.Reach.lfp_least',
+                  'Meddly.Reach.lfp_mono_init',
+                  'Meddly.Reach.lfp_mono_rel',
+                  'Meddly.Reach.lfp_union',
+                  'Meddly.Reach.lfp_congr_init',
+                  'Meddly.Reach.post_lfp_sub',
+                  'Meddly.Reach.lfp_ext',
                   'Meddly.Spec.ReachTables.reachList_spec',
                   'Meddly.Spec.ReachTables.distList_spec'],
      'quick': [{'family': 'reach', 'flavor': 'plain', 'args': {'allow': 'F4,F7,F8,F9,F10'}}],   # F4, F10 repaired by fix: commits: no steering
      'thorough': [{'family': 'reach', 'flavor': 'asan', 'args': {'allow': 'F4,F7,F8,F9,F10'}}],
-     'leanchecker': ['MeddlyModel.Ops.Reach', 'MeddlyModel.Spec.ReachTables'],
+     'leanchecker': ['MeddlyModel.Ops.Reach', 'MeddlyModel.Ops.ReachLaws', 'MeddlyModel.Spec.ReachTables'],
      'design_ref': 'DESIGN.md §5 C08',
-     'level_text': 'Lean theorems over an arbitrary finite state space (any enumeration `states` of a type with decidable equality, any relation, any initial '
+     'level_text': 'Closure laws as list equalities (Ops/ReachLaws: lfp_idem, lfp_least, post_lfp_sub, lfp_mono_init/rel, lfp_union, lfp_congr_init), tied by a second call of the same algorithm from every boolean answer (same edge required). ' +
+                   'Lean theorems over an arbitrary finite state space (any enumeration `states` of a type with decidable equality, any relation, any initial '
                    'set): lfpIter_spec (|states| rounds of S -> init u S u post R S hold exactly the reflexive-transitive closure), bfs_nofrontier_eq_lfp / '
                    'bfs_frontier_eq_lfp (the two loops of reach_trad.cc, modelled step for step with their own stop tests, STOP within |states|+1 rounds and '
                    'return that identical canonical set; backward = forward on the converse relation, bfs_backward_spec), dist_eq_shortest / dist_none_iff '
